@@ -60,7 +60,7 @@ impl Method for EMA {
 
 	fn new(length: Self::Params, &value: &Self::Input) -> Result<Self, Error> {
 		match length {
-			0 => Err(Error::WrongMethodParameters),
+			0 | PeriodType::MAX => Err(Error::WrongMethodParameters),
 			length => {
 				let alpha = 2. / ((length + 1) as ValueType);
 				Ok(Self { alpha, value })
